@@ -452,21 +452,21 @@ pub fn find_from_json2(pattern: &[u32], flagstr: &str, no_opt: bool, hay: &str, 
 }
 
 
-/// The interval table the real lookup returns for a property name (kind: gc / sc / scx / bin), as JSON.
+/// The interval table the real dispatcher (unicode::unicode_property_from_str) returns for a property
+/// name/value (kind: gc / sc / scx / bin), as JSON.
 pub fn prop_table_json(kind: &str, name: &str) -> String {
-    use crate::unicodetables as ut;
-    let t: Option<&'static [crate::codepointset::Interval]> = match kind {
-        "gc" => ut::unicode_property_value_general_category_from_str(name).map(|v| ut::general_category_property_value_ranges(&v)),
-        "sc" => ut::unicode_property_value_script_from_str(name).map(|v| ut::script_value_ranges(&v)),
-        "scx" => ut::unicode_property_value_script_from_str(name).map(|v| ut::script_extensions_value_ranges(&v)),
-        "bin" => ut::unicode_property_binary_from_str(name).map(|v| ut::binary_property_ranges(&v)),
+    use crate::unicode::{unicode_property_from_str, PropertyEscapeKind, UnicodePropertyName};
+    let n = match kind {
+        "gc" => Some(UnicodePropertyName::GeneralCategory),
+        "sc" => Some(UnicodePropertyName::Script),
+        "scx" => Some(UnicodePropertyName::ScriptExtensions),
         _ => None,
     };
-    match t {
-        None => "{\"ok\": true, \"some\": false}".into(),
-        Some(t) => {
+    match unicode_property_from_str(name, n, false) {
+        Some(PropertyEscapeKind::CharacterClass(t)) => {
             let ivs: Vec<String> = t.iter().map(|iv| format!("[{}, {}]", iv.first, iv.last)).collect();
             format!("{{\"ok\": true, \"some\": true, \"ivs\": [{}]}}", ivs.join(", "))
         }
+        _ => "{\"ok\": true, \"some\": false}".into(),
     }
 }
